@@ -58,16 +58,17 @@ func checkC03(c *C03Case) *Violation {
 	}
 	differs := false
 	for _, opt := range []bool{false, true} {
-		res := Compile(src, Opts{Optimize: opt, Auto: c.Auto})
+		res := CompileMaybeLM(src, Opts{Optimize: opt, Auto: c.Auto})
 		if !res.OK() {
 			if res.Panic != nil || res.Budget {
 				return viol("crash", "opt=%v %s\n--- source\n%s", opt, res.Describe(), src)
 			}
 			return viol("rejected", "a well-formed switch was rejected: %v\n--- source\n%s", res.Err, src)
 		}
-		ref := NewRef(c.File, c.Auto)
+		model := ExpandConsts(c.File)
+		ref := NewRef(model, c.Auto)
 		a := ParseAsm(res.Out)
-		names, _ := EntryBlocks(c.File)
+		names, _ := EntryBlocks(model)
 		for _, name := range names {
 			seen := map[string]bool{}
 			for wi, w := range worlds {
@@ -253,8 +254,40 @@ func genC03(t *rapid.T) *C03Case {
 		}
 		sw.Cases = append(sw.Cases, cs)
 	}
+	// the values are fixed before constants are written in: a case value may be given through a
+	// poryscript constant (alone, or as one token among several), the selected body is the same
+	var consts []*Top
+	if rapid.IntRange(0, 3).Draw(t, "consts") == 0 {
+		for _, cs := range sw.Cases {
+			if cs.IsDefault {
+				continue
+			}
+			switch rapid.IntRange(0, 3).Draw(t, "constform") {
+			case 0: // the whole value is a constant
+				name := fmt.Sprintf("CK%d", len(consts))
+				consts = append(consts, &Top{K: "const", Const: &Const{Name: name, Val: append([]string{}, cs.Val...)}})
+				cs.Val = []string{name}
+			case 1: // BASE + value, BASE a constant
+				name := fmt.Sprintf("CK%d", len(consts))
+				consts = append(consts, &Top{K: "const", Const: &Const{Name: name, Val: []string{"100"}}})
+				cs.Val = append([]string{"100", "+"}, cs.Val...)
+			}
+		}
+	}
+	values := c03Values(sw)
+	for _, tp := range consts {
+		if len(tp.Const.Val) == 1 && tp.Const.Val[0] == "100" {
+			for _, cs := range sw.Cases {
+				if len(cs.Val) > 2 && cs.Val[0] == "100" && cs.Val[1] == "+" {
+					cs.Val[0] = tp.Const.Name
+					break
+				}
+			}
+		}
+	}
 	f, fixed := wrapCtx(ctx, &Stmt{K: "switch", Switch: sw}, sCmd(&Cmd{Name: "pre"}), sCmd(&Cmd{Name: "post"}), sCmd(&Cmd{Name: "in1"}), sCmd(&Cmd{Name: "in2"}))
-	return &C03Case{File: f, Var: "VAR_SW", Values: c03Values(sw), Fixed: fixed,
+	f.Tops = append(consts, f.Tops...)
+	return &C03Case{File: f, Var: "VAR_SW", Values: values, Fixed: fixed,
 		Seeds: []uint64{rapid.Uint64Range(1, 1<<30).Draw(t, "seed"), rapid.Uint64Range(1, 1<<30).Draw(t, "seed2")},
 		Meta:  map[string]string{"ctx": fmt.Sprint(ctx)}}
 }
@@ -263,7 +296,7 @@ func init() {
 	register("C03", "TestC03_Switch", checkC03, c03Src)
 }
 
-const c03Rule = "one switch of 1-6 cases (distinct decimal/hex/symbolic/multi-token values, default absent or at any position, bodies: empty, commands, a lone break, break at the end / in the middle / inside a nested if / first, nested if, a do-while / while loop inside the body; continue at the end of the last case inside loops) in 10 contexts (only/first/last statement, followed by a bare return / end inside a nested block, inside while, do-while, condition-less while, another switch's body, an if arm); for EVERY case value and one value matching nothing a scripted world fixes the var and the assembly run must equal the reference run, optimize off and on; plus exhaustive enumeration of all case lists with <=3 entries (thorough 4, 5 with fewer body kinds). non-trivial = the list has an empty case or a default that is not last AND two values produced different outcomes; distinct by source text"
+const c03Rule = "one switch of 1-6 cases (distinct decimal/hex/symbolic/multi-token values, in a quarter of the cases written through poryscript constants - the whole value or one token of it -, default absent or at any position, bodies: empty, commands, a lone break, break at the end / in the middle / inside a nested if / first, nested if, a do-while / while loop inside the body; continue at the end of the last case inside loops) in 10 contexts (only/first/last statement, followed by a bare return / end inside a nested block, inside while, do-while, condition-less while, another switch's body, an if arm); for EVERY case value and one value matching nothing a scripted world fixes the var and the assembly run must equal the reference run, optimize off and on; plus exhaustive enumeration of all case lists with <=3 entries (thorough 4, 5 with fewer body kinds). non-trivial = the list has an empty case or a default that is not last AND two values produced different outcomes; distinct by source text"
 
 func TestC03_Regress(t *testing.T) { runRegress(t, "C03") }
 
